@@ -764,7 +764,9 @@ pub fn check_graph(sem: &Sem, g: &Graph, acc: &mut Acc) -> Result<(), (String, S
                 let (GNode::Solv(a), GNode::Solv(b)) = (src, dst) else {
                     return bad("forbid-shape", format!("edge {ei}: forbid edge {src:?} -> {dst:?}"));
                 };
-                if a == b || u.solvs[*a as usize].name != u.solvs[*b as usize].name {
+                // the property only demands that both ends belong to one package
+                // (a self-loop is what Conflict::graph draws for a solvable with two helper clauses)
+                if u.solvs[*a as usize].name != u.solvs[*b as usize].name {
                     return bad("forbid-untrue", format!("edge {ei}: forbid edge joins {} and {}", u.solv_label(*a), u.solv_label(*b)));
                 }
             }
